@@ -23,6 +23,7 @@ func init() {
 			ruleXZReaderChecks(c, r, "")
 			ruleBlockEnd(c, r, "")
 			ruleReaderFrom(c, r, "")
+			ruleWriterTo(c, r, "")
 			ruleRawEOFFlag(c, r, "")
 			ruleLoopAdvanceExact(c, r, "")
 			ruleBlockReadOnlySize(c, r, "")
